@@ -470,6 +470,11 @@ class Machine:
          'kind': op[0], 'depth': depth, 'before': self.snapshot(), 'obs_start': len(self.obs)}
     self.trace.append(t)
     self.depth = depth
+    if op[0] in ('bind', 'pbind', 'bindt'):
+      try:       # what the value means NOW (a %name resolves against the constants known at this point)
+        t['want'] = self.canon(self.val(op[4] if op[0] == 'bindt' else op[2]))
+      except Exception:  # pylint: disable=broad-except
+        pass
     try:
       self._exec_op(op, depth)
       t['exc'] = None
@@ -576,6 +581,40 @@ class Machine:
       self.emit([list(x) for x in self.log])
     else:
       raise AssertionError(op)
+
+  def readback_fails(self):
+    """independent of gin's own bookkeeping: after every bind that did not raise, the store holds, under the scope and
+    a selector the key spells, exactly the value that was bound (same type, same reference scopes)"""
+    fails = []
+    for t in self.trace:
+      if t['kind'] not in ('bind', 'pbind', 'bindt') or t.get('exc') is not None:
+        continue
+      op = t['op']
+      try:
+        if t['kind'] == 'bindt':
+          scope, sel, param, v = op[1], op[2], op[3], op[4]
+        else:
+          parts = op[1].split('/')
+          v = op[2]
+          if '.' in parts[-1]:
+            scope = '/'.join(parts[:-1])
+            sel, param = parts[-1].rsplit('.', 1)
+          else:
+            scope, sel, param = op[1], 'gin.macro', 'value'      # a macro definition
+        want = t['want']
+      except Exception:  # pylint: disable=broad-except
+        continue
+      cands = [(q, dict((p, x) for p, x in pd)) for s, q, pd in t['after']['config'] if s == scope]
+      exact = [c for c in cands if c[0] == sel]
+      cands = exact or [c for c in cands if c[0].endswith('.' + sel)]
+      got = [c[1][param] for c in cands if param in c[1]]
+      if not got:
+        fails.append(('bound-value-not-stored', 'after %r the store has no value for parameter %r of %r under scope %r: %r' %
+                      (op, param, sel, scope, t['after']['config'])))
+      elif not any(C.strict_eq(g, want) for g in got):
+        fails.append(('bound-value-not-stored', 'after %r the store holds %r for parameter %r of %r under scope %r, not the '
+                      'bound value %r' % (op, got, param, sel, scope, want)))
+    return fails[:2]
 
   def run(self, case):
     self.case_regs = case['regs']
